@@ -29,7 +29,7 @@ def closure(F, entries, stop=None, follow=None):
   for e in entries:
     if e.startswith('re:'):
       r = re.compile(e[3:])
-      roots.extend(b.path for b in F.bodies.values() if r.search(b.n))
+      roots.extend(b.path for b in F.bodies.values() if r.search(b.n) or r.search(b.path))
     else:
       roots.extend(b.path for b in F.by_norm.get(e, []))
   stops = [re.compile(s) for s in (STOP_DEFAULT if stop is None else stop)]
@@ -78,9 +78,19 @@ class Inventory:
         g.why = s.why or g.why
     return groups
 
+  pre = {}
+
   def sites_of(self, body):
+    """sites of a body analysed for arbitrary arguments — or, for a function with a stated domain precondition, under it"""
     if body.path not in self.cache:
-      a = self.engine.analyse(body)
+      st = None
+      pre = self.pre.get(body.path) or self.pre.get(body.n)
+      if pre:
+        from .intervals import State
+        st = State()
+        for k, v in pre.items():
+          st.m[k] = v
+      a = self.engine.analyse(body, st)
       self.cache[body.path] = (list(self.group(a).values()), a)
     return self.cache[body.path]
 
@@ -167,7 +177,7 @@ def _short(n):
   return '::'.join(n.replace('<', '').replace('>', '').split('::')[-2:])
 
 
-def run_inventory(ctx, rule, entries, table, partition=1, kinds=None, stop=None, floor_fns=0, floor_sites=0, label=None, skip_kinds=('shl-lossy',), extra_idiom=None):
+def run_inventory(ctx, rule, entries, table, partition=1, kinds=None, stop=None, floor_fns=0, floor_sites=0, label=None, skip_kinds=('shl-lossy',), extra_idiom=None, pre=None):
   """enumerate and discharge.  table: {(fn, kind, desc): reason | (reason, (lo, hi))}.
   A site of a non-entry helper that is not discharged for arbitrary arguments is re-examined in the context of every call
   site inside the closure (argument ranges of that call); it is then keyed at the *caller*:
@@ -179,6 +189,7 @@ def run_inventory(ctx, rule, entries, table, partition=1, kinds=None, stop=None,
   assumes = {k: v['range'] for k, v in table.items() if v.get('range') is not None}
   requires = {k: v['requires'] for k, v in table.items() if v.get('requires')}
   inv = Inventory(F, partition, assumes)
+  inv.pre = pre or {}
   ctx.anchor(rule, f'entry points {label or entries}', len(roots) >= 1)
   n_sites = 0
   used = set()
